@@ -25,6 +25,7 @@ void unit_io(const std::string &fn) {
     sparse<int, int>(fn);
     sparse<unsigned, float>(fn);
     sparse<int, std::complex<float>>(fn);
+    sparse<int, long long>(fn); sparse<int, unsigned long>(fn); sparse<int, char>(fn); sparse<int, short>(fn);
     dense<double>(fn); dense<std::complex<double>>(fn); dense<int>(fn); dense<long double>(fn); dense<float>(fn);
     {
         size_t n; std::vector<ptrdiff_t> ptr, col; std::vector<double> val, v;
